@@ -31,6 +31,8 @@ def gen_base(rng, tier):
             prior = []
     # part of the block may itself be a squash_changes block opened on the batch trie (committed, or left by an exception)
     inner = HX.nest_some(rng, inner, 0.3)
+    if rng.random() < 0.15:
+        prior, inner = HX.gen_there_and_back(rng)
     after, _ = HX.gen_writes(rng, 3)
     return {"prune": prune, "prior": prior, "inner": inner, "after": after}
 
@@ -167,7 +169,11 @@ def corpus():
           ("batch", [("set", b"\x03", b"d" * 40, "meth"), ("del", b"\x01\x01", "meth")], 2),
           ("get", b"\x03", "meth"), ("get", b"\x01\x01", "meth"), ("del", b"\x01\x02", "item")]
     d4 = [dict(d3, inner=n, prune=p, exit=e) for n in (n1, n2) for p in (False, True) for e in (("commit", None), ("abort", 3))]
-    return [d3, d2, dict(d3, exit=("commit", None)), dict(d2, prune=False, exit=("commit_fail", 1))] + d4
+    tab = {"prune": True, "prior": [("set", b"\x01\x01", b"a" * 40, "meth"), ("set", b"\x01\x02", b"b" * 40, "meth")],
+           "inner": [("set", b"\x01\x01", b"z" * 40, "item"), ("batch", [("set", b"\x01\x01", b"a" * 40, "meth")], None),
+                     ("get", b"\x01\x01", "meth")],
+           "after": [("get", b"\x01\x01", "meth"), ("set", b"\x03", b"x", "meth"), ("get", b"\x01\x02", "meth")], "exit": ("commit", None)}
+    return [d3, d2, dict(d3, exit=("commit", None)), dict(d2, prune=False, exit=("commit_fail", 1))] + d4 + [tab, dict(tab, prune=False)]
 
 
 def check(tier, seed):
